@@ -389,25 +389,39 @@ func applyReal(pj *simdjson.ParsedJson, docs []*ref.Node, o editOp) (apiErr erro
 	if err != nil {
 		return nil, "cannot reach position: " + err.Error()
 	}
-	switch o.kind {
-	case opSetNull:
-		return it.SetNull(), ""
-	case opSetTrue:
-		return it.SetBool(true), ""
-	case opSetFalse:
-		return it.SetBool(false), ""
-	case opSetInt:
-		return it.SetInt(-5), ""
-	case opSetUint:
-		return it.SetUInt(math.MaxUint64), ""
-	case opSetFloat:
-		return it.SetFloat(2.5), ""
-	case opSetStrEmpty:
-		return it.SetString(""), ""
-	case opSetStrEsc:
-		return it.SetString("x\"\n"), ""
-	case opSetStrBytes:
-		return it.SetStringBytes(fortyBytes), ""
+	if o.kind < nSetOps {
+		var serr error
+		switch o.kind {
+		case opSetNull:
+			serr = it.SetNull()
+		case opSetTrue:
+			serr = it.SetBool(true)
+		case opSetFalse:
+			serr = it.SetBool(false)
+		case opSetInt:
+			serr = it.SetInt(-5)
+		case opSetUint:
+			serr = it.SetUInt(math.MaxUint64)
+		case opSetFloat:
+			serr = it.SetFloat(2.5)
+		case opSetStrEmpty:
+			serr = it.SetString("")
+		case opSetStrEsc:
+			serr = it.SetString("x\"\n")
+		case opSetStrBytes:
+			serr = it.SetStringBytes(fortyBytes)
+		}
+		if serr == nil {
+			// the iterator the call was made on must read the new value too (callers keep
+			// using the element iterator they edited through)
+			want := setValueNode(o.kind)
+			wk := &walker{budget: 1 << 16}
+			got, rerr := wk.value(it)
+			if rerr != nil || got.Render() != want.Render() {
+				return nil, fmt.Sprintf("%v succeeded, but the iterator it was called on now reads %v (%v), new value is %s", o, got, rerr, want.Render())
+			}
+		}
+		return serr, ""
 	}
 	n := nodeAt(docs, o.p)
 	del, callbacks := deleteSelection(n, o)
@@ -551,6 +565,8 @@ func stateAgreement(pj *simdjson.ParsedJson, docs []*ref.Node, mode simdjson.Com
 
 // lookupAgreement: FindKey on every object for every present key (first member) and an
 // absent key; FindPath for every key path to depth 3.
+var marshalElements *simdjson.Elements // long-lived Object.Parse destination of marshalInner
+
 var (
 	editElements *simdjson.Elements  // long-lived Object.Parse destination
 	editKeysSeen = map[string]bool{} // every member name any checked object ever had
@@ -727,10 +743,12 @@ func marshalInner(pj *simdjson.ParsedJson, docs []*ref.Node) (what string) {
 				if err != nil {
 					return err.Error()
 				}
-				els, err := obj.Parse(nil)
+				// one long-lived Elements, last filled from some other object
+				els, err := obj.Parse(marshalElements)
 				if err != nil {
 					return "Object.Parse: " + err.Error()
 				}
+				marshalElements = els
 				out, err := els.MarshalJSON()
 				if s := cmp(out, err, want, "Elements.MarshalJSON", p); s != "" {
 					return s
